@@ -72,12 +72,16 @@ CHECKS = {
     "C08": dict(
         engine="Dof",
         technique="TLA+ set/function specification Dof.tla (offsets, Dof(f,p,i), boundary selections, Dof0/Dof1/Ext0, documented load-case tables) "
-                  "model-checked in small scope (DofMC) and used by TLC to recompute, exactly, what real containers/boundaries/load cases return",
+                  "model-checked in small scope (DofMC) and used by TLC to recompute, exactly, what real containers/boundaries/load cases return; "
+                  "TLA+ state machine Fields.tla of container operations over a heap (theorems model-checked by FieldsMC; every exported program "
+                  "executed on real FieldContainers and every step validated by TLC: Apply(observed pre-state, op) ~ observed post-state)",
         text="TLC enumerates every container of <=2 fields x <=2 points x <=2 components with every pair of dof-mask boundaries and checks the "
              "partition theorems and last-boundary-wins on the model; on real objects (all 256 masks of a 4-point container exhaustively, seeded "
              "random mixed/dual/three-field containers with cell-less points and overlapping boundaries of all kinds and value shapes, all "
              "argument combinations of the four load cases on lattice meshes) TLC recomputes dof0, dof1, ext0, boundary selections, value "
-             "order, field update split, assembly rows and index arrays and compares exactly.",
+             "order, field update split, assembly rows and index arrays and compares exactly. Field update: every program of container "
+             "operations (+=, -=, *= with global vectors, per-field updates, fill, link, copy, a + w, a & b) up to depth 2 plus random programs of "
+             "length 10 is executed; TLC checks the content of every value array after every step (global index -> field / entry).",
         note="Load-case semantics transcribed from the docstrings/prose; two documentation ambiguities are accepted in both readings (biaxial "
              "half value without symmetry) or resolved towards the code comment (symmetry fixes the normal component). Coordinates are lattice integers.",
         ref="5/C08"),
@@ -143,13 +147,16 @@ CHECKS = {
         engine="Region",
         technique="TLA+ law module Region.tla: TLC computes exact volumes of lattice meshes (via MeshOps.tla) and evaluates spec-issued "
                   "integer-coefficient polynomials, their gradients and hessians at the logged quadrature points, comparing with what real "
-                  "regions/fields return; reference instance and negatives checked at TLC start-up",
+                  "regions/fields return; reference instance and negatives checked at TLC start-up; TLA+ state machine Reload.tla of "
+                  "Mesh.update / Region.reload / Region.copy (freshness theorems model-checked by ReloadMC; exported programs executed on a real "
+                  "mesh and regions, every step validated by TLC)",
         text="For every volume template (12), boundary template (6), arbitrary-order Lagrange, constant/dual regions and the plane-strain / "
              "axisymmetric field kinds TLC decides: positive differential volumes summing to the exact geometric volume of straight-sided lattice "
              "meshes, invariance under a rational rotation + translation, agreement across element families, a warning naming a flipped cell, "
              "reproduction of polynomial values / gradients / hessians (degree <= order on affine cells, <= 1 on distorted and curved cells), "
              "exact Gram matrices of the default rule on affine cells, plane-strain padding, axisymmetric hoop entry u_r/R, uniform fast path, "
-             "float32 copy.",
+             "float32 copy. Reload: after every reload (direct, as the callback of Mesh.update, by copy, at creation) in every program up to "
+             "depth 2 (+ random programs of length 12) the cached geometry is that of the points the region's mesh currently holds.",
         note="Fixed point 2^-20 with tolerances 24/96/384 ulp for values/gradients/hessians; meshes of 4-8 cells; curved meshes only for "
              "positivity, rigid invariance and linear reproduction. Known finding: the MINI templates put the bubble point into the geometry map "
              "(linear fields are not reproduced; recorded in known_findings.json).",
@@ -269,7 +276,8 @@ ENGINES = [
     {"name": "Items", "path": "spec/Items.tla", "serves_properties": ["C01", "C14"],
      "kind_free_text": "TLA+ stencil-derivative / symmetry / multiplier / balance laws for solver items, evaluated by TLC in fixed point"},
     {"name": "Region", "path": "spec/Region.tla", "serves_properties": ["C06"],
-     "kind_free_text": "TLA+ laws of regions/fields: exact lattice volumes, polynomial reproduction evaluated by TLC in fixed point"},
+     "kind_free_text": "TLA+ laws of regions/fields: exact lattice volumes, polynomial reproduction evaluated by TLC in fixed point; "
+                       "Reload.tla / ReloadMC.tla / ReloadTrace.tla state machine of mesh updates and region reloads (step conformance)"},
     {"name": "TensorLaws", "path": "spec/TensorLaws.tla", "serves_properties": ["C17"],
      "kind_free_text": "TLA+ exact tensor algebra definitions (Einstein-summation evaluator) + TLC trace validation"},
     {"name": "MeshOps", "path": "spec/MeshOps.tla", "serves_properties": ["C16"],
@@ -279,7 +287,8 @@ ENGINES = [
     {"name": "Surface", "path": "spec/Surface.tla", "serves_properties": ["C13"],
      "kind_free_text": "TLA+ incidence structure + proper rotation group; table/selection/geometric laws; SurfaceMC.tla reference and negatives"},
     {"name": "Dof", "path": "spec/Dof.tla", "serves_properties": ["C08"],
-     "kind_free_text": "TLA+ index algebra of unknown numbering and boundary partition; DofMC.tla small-scope model; DofTrace.tla validation"},
+     "kind_free_text": "TLA+ index algebra of unknown numbering and boundary partition; DofMC.tla small-scope model; DofTrace.tla validation; "
+                       "Fields.tla / FieldsMC.tla / FieldsTrace.tla state machine of field-container operations (heap model, step conformance)"},
     {"name": "Solver", "path": "spec/Solver.tla", "serves_properties": ["C07", "C15", "C20"],
      "kind_free_text": "TLA+ state machine of Job/Step/newtonrhapson/commit protocol; SolverMC.tla (exhaustive + seeded faults + behaviour export), "
                        "SolverTrace.tla (trace validation), harness/vh/tracer.py (run-time event tracer), NewtonLaws.tla (numeric clauses)"},
